@@ -73,13 +73,13 @@ def gen_plan(tape, cfg):
     nsolvers = 2 if tape.chance(1, 4, "two solvers") else 1
     kinds = [(6, "assert"), (3, "push"), (3, "pop"), (4, "solve"), (1, "reset")]
     for w, k in [(3, "get_value"), (2, "get_model"), (2, "is_sat"), (1, "is_valid"), (1, "is_unsat"),
-                 (1, "shortcut")]:
+                 (1, "shortcut"), (1, "print_model")]:
         if tape.chance(3, 4, "enable." + k):
             kinds.append((w, k))
     if use_usort or any(bp.is_fun(s_) for s_ in symbols.values()):
         # SmtLibSolver.get_model() has no representation for values of declared sorts nor for
         # function interpretations: not asked in these runs (limitation noted in DESIGN.md)
-        kinds = [(w, k) for w, k in kinds if k not in ("get_model",)]
+        kinds = [(w, k) for w, k in kinds if k not in ("get_model", "print_model")]
     n = tape.rint(5, 25, "nops")
     ops = []
     # Known finding F6 makes every history that re-uses a symbol after
@@ -478,6 +478,32 @@ def execute(plan, tape):
                 if not got.is_constant() or got.constant_value() != want:
                     raise Violation("C17:value", "%s returned %s, the solver's model gives %s" % (where, got, want))
                 st.after_value = True
+            elif k == "print_model":
+                if not st.sat_mode:
+                    continue
+                import io, contextlib
+                buf = io.StringIO()
+                with contextlib.redirect_stdout(buf):
+                    call(st, "print_model", solver.print_model)
+                m = _ref_env(ref)
+                if m is None:
+                    raise Violation("C17:model-mode", "print_model returned but the solver is in mode %s" % ref.mode)
+                shown = {}
+                for line in buf.getvalue().splitlines():
+                    if " = " in line:
+                        nm_, val_ = line.rsplit(" = ", 1)
+                        shown[nm_.strip()] = val_.strip()
+                for n, srt in ref.live_consts():
+                    sym = mgr.get_symbol(n)
+                    key_ = str(sym)
+                    if key_ not in shown:
+                        raise Violation("C17:print-model-missing", "%s: print_model shows no line for %r (printed: %s)" %
+                                        (where, n, sorted(shown)))
+                    want_ = str(mgr.Bool(m[n]) if srt == ("Bool",) else mgr.BV(m[n], srt[1]))
+                    if shown[key_] != want_:
+                        raise Violation("C17:print-model-value", "%s: print_model shows %s = %s, the solver's model has %s" %
+                                        (where, n, shown[key_], want_))
+                probe("print_model_checked")
             elif k == "get_model":
                 if not st.sat_mode:
                     continue
